@@ -264,6 +264,7 @@ struct EpRt {
     /// Harness-side inbox (Hc, Raw) or mirror of the simulated socket's inbox (Client, Server).
     inbox: VecDeque<(SocketAddr, Rc<Vec<u8>>)>,
     inbox_cap: usize,
+    incarnations: u32,
 }
 
 #[derive(PartialEq, Eq)]
@@ -468,7 +469,7 @@ impl<'a> World<'a> {
         for e in plan.endpoints.iter() {
             let addr: SocketAddr = e.addr.parse().map_err(|_| format!("bad address {}", e.addr))?;
             addrs.push(addr);
-            eps.push(EpRt { obj: EpObj::None, addr, ppm: e.clock_ppm, offset_ns: 0, inbox: VecDeque::new(), inbox_cap: usize::MAX });
+            eps.push(EpRt { obj: EpObj::None, addr, ppm: e.clock_ppm, offset_ns: 0, inbox: VecDeque::new(), inbox_cap: usize::MAX, incarnations: 0 });
         }
         if eps.len() + 1 > alloc::MAX_DOMAINS {
             return Err("too many endpoints".into());
@@ -1064,9 +1065,14 @@ impl<'a> World<'a> {
                 let spec = self.plan.endpoints[ep].clone();
                 let addrs = self.addrs.clone();
                 self.guarded(ep, op, oracles, move |e, _out| {
-                    for n in spec.nonces.iter() {
-                        uv::rand::force_next_u32(*n);
+                    // steered nonces apply to the first incarnation only: a restarted endpoint
+                    // draws fresh random nonces, as a real one would
+                    if e.incarnations == 0 {
+                        for n in spec.nonces.iter() {
+                            uv::rand::force_next_u32(*n);
+                        }
                     }
+                    e.incarnations += 1;
                     match &spec.kind {
                         EndpointKind::Hc { spec, .. } => {
                             e.obj = EpObj::Hc(Box::new(uv::HalfConnection::new(to_hc_cfg(spec))));
